@@ -84,8 +84,12 @@ def generate(repo, emit, src, func_body):
           'item0=Tree_Iter_Next(self,item0);item1=iter_next(obj,item1);}')
     emit('tree_cmp_shape_ok', 'Definition tree_cmp_shape_ok : bool := true.   (* Tree_Cmp: key, then value, then advance *)' if tl in b else None)
 
-    c = norm(src('src/Cmp.c'))
-    dflt = ('if(candc->cmp){returnc->cmp(self,obj);}size_ts=size(type_of(self));'
-            'if(type_of(self)istype_of(obj)ands){returnmemcmp(self,obj,s);}')
-    emit('cmp_default_shape_ok', 'Definition cmp_default_shape_ok : bool := true.   (* cmp: instance, else memcmp over size(type) *)'
-         if dflt in c else None)
+    # cmp(): executed symbolically for the 16 assignments of (instance present, cmp member present, same type,
+    # size non-zero); outcomes 0 = call the instance, 1 = memcmp over size(type_of(self)), 2 = TypeError, 3 = NULL deref
+    from cx_translate import dispatch_table
+    try:
+        rows = dispatch_table(cmpc, func_body)
+        txt = '; '.join('(%s, %s, %s, %s, %d)' % tuple([str(x).lower() for x in r[:4]] + [r[4]]) for r in rows)
+        emit('cmp_dispatch_table', 'Definition cmp_dispatch_table : option (list (bool * bool * bool * bool * nat)) :=\n  Some [%s].   (* src/Cmp.c cmp *)' % txt)
+    except Untranslatable as e:
+        emit('cmp_dispatch_table', 'Definition cmp_dispatch_table : option (list (bool * bool * bool * bool * nat)) := None.   (* not translated: %s *)' % str(e)[:80].replace('*)', '* )'))
